@@ -607,6 +607,11 @@ func (w *W) Offer(i int) bool { ln := &w.lanes[i]; return offer(ln, 1) }
 func (w *W) Peek(i int) int   { return len(w.lanes[i].ch) }
 func (w *W) Clobber(i int)    { ln := &w.lanes[i]; clobber(ln) }
 
+func (w *W) Enter() {
+	w.ids.seq.Add(1)
+	defer w.ids.seq.Add(^uint64(0)) // directly deferred call on an atomic field
+	go w.ids.seq.Store(0)
+}
 func (w *W) NextID() uint64 { return w.ids.next() }
 func (w *W) Bump()          { w.ids.bump() }
 `
@@ -648,6 +653,14 @@ func TestBattery2Locks(t *testing.T) {
 	}
 	if !has("GetRL", "n", false, false, "mu", "Sh") {
 		t.Errorf("read under RLocker().Lock() must be held Sh")
+	}
+	if bad := disciplineFails(r, "Enter", "NextID"); len(bad) != 0 {
+		t.Errorf("defer / go of a method of an atomic field must be atomic accesses, fails on %v", bad)
+	}
+	for _, x := range r {
+		if x.fn == "Enter" && x.loc == "ids.seq" && !x.atomic {
+			t.Errorf("Enter: non-atomic access of ids.seq recorded: %+v", x)
+		}
 	}
 	if !has("NextID", "ids.seq", true, true, "", "") {
 		t.Errorf("w.ids.next() must be an atomic write of ids.seq")
@@ -1200,6 +1213,37 @@ func Done() error { p, _ := os.FindProcess(os.Getppid()); return p.Signal(os.Int
 	}
 	if got := runLaunch(t, strings.Replace(b14, "context.Background()", "timeoutCtx", 1)); !strings.Contains(got, "AUnknown") {
 		t.Errorf("NotifyContext on a context that may end by itself must be unknown: %s", got)
+	}
+	// battery 3: the waiter looks at *os.ProcessState; the daemon gets a session of its own
+	b3 := strings.Replace(launchFixed, "\t\tif err := cmd.Wait(); err != nil {\n\t\t\tos.Stderr.Write([]byte(\"daemon: \" + err.Error()))\n\t\t}\n",
+		"\t\tstate, err := cmd.Process.Wait()\n\t\tif err == nil && !state.Success() && state.ExitCode() != 0 {\n\t\t\tos.Stderr.Write([]byte(\"daemon: \" + state.String()))\n\t\t}\n", 1)
+	if !strings.Contains(b3, "state.Success()") {
+		t.Fatal("fixture not built")
+	}
+	if got := runLaunch(t, b3); got != "[ANotify; AStart; AWritePid; ASpawnWait; ASelect]" {
+		t.Errorf("ProcessState methods in the waiter: %s", got)
+	}
+	if got := runLaunch(t, strings.Replace(b3, "state.ExitCode() != 0", "cmd.Process.Kill() == nil", 1)); !strings.Contains(got, "AUnknown") {
+		t.Errorf("cmd.Process.Kill in the waiter must stay unknown: %s", got)
+	}
+	for _, m := range []struct {
+		attr string
+		ok   bool
+	}{
+		{"&syscall.SysProcAttr{Setsid: true}", true},
+		{"&syscall.SysProcAttr{Setpgid: true, Pgid: 0}", true},
+		{"&syscall.SysProcAttr{Setsid: true, Pdeathsig: syscall.SIGKILL}", false},
+		{"&syscall.SysProcAttr{Foreground: true}", false},
+		{"attrs", false},
+	} {
+		src := strings.Replace(launchFixed, "\tif err := cmd.Start(); err != nil {", "\tcmd.SysProcAttr = "+m.attr+"\n\tif err := cmd.Start(); err != nil {", 1)
+		got := runLaunch(t, src)
+		if m.ok && got != "[ANotify; AStart; AWritePid; ASpawnWait; ASelect]" {
+			t.Errorf("SysProcAttr %s must be accepted: %s", m.attr, got)
+		}
+		if !m.ok && !strings.Contains(got, `AUnknown "field SysProcAttr`) {
+			t.Errorf("SysProcAttr %s must stay unknown: %s", m.attr, got)
+		}
 	}
 	extra := strings.Replace(launchFixed, "\tverifPause(", "\tos.Exit(0)\n\tverifPause(", 1)
 	if got := runLaunch(t, extra); !strings.Contains(got, `AUnknown "call os.Exit`) {
